@@ -169,9 +169,18 @@ func String(big bool) *rapid.Generator[string] {
 	})
 }
 
-// SmallString draws a short identifier-like string (possibly empty).
+// HashTwins: pairs (2i, 2i+1) of different equal-length strings with the same 32-bit golib string hash (the
+// CRC-32 variant of util/hash; found by search). Anything that identifies a string by its hash confuses them.
+var HashTwins = []string{
+	"xmhkihbk", "ftwrdvba", "icumtxjc", "hhscqzaf", "orvwfbde", "obebodpu", "xdkzbgyg", "reofztky",
+	"grzojqxb", "dpqypfid", "nwugvcdj", "fcsptbva", "uuucbnxu", "yeoioaps", "uvuyxeeq", "izhkoien",
+	"qcgcnfth", "bnvowbox", "pmenozgx", "fcrwpscf", "ehqsikby", "xcviwdge", "xdwgenmo", "dgxdnuui",
+}
+
+// SmallString draws a short identifier-like string (possibly empty); one draw in eight is one of the hash twins.
 func SmallString() *rapid.Generator[string] {
-	return rapid.OneOf(rapid.Just(""), rapid.StringMatching(`[a-zA-Z0-9_./=-]{1,12}`), rapid.SampledFrom([]string{"가", "é€", "a b", "\xff"}))
+	return rapid.OneOf(rapid.Just(""), rapid.StringMatching(`[a-zA-Z0-9_./=-]{1,12}`), rapid.StringMatching(`[a-zA-Z0-9_./=-]{1,12}`), rapid.StringMatching(`[a-zA-Z0-9_./=-]{1,12}`),
+		rapid.SampledFrom([]string{"가", "é€", "a b", "\xff"}), rapid.SampledFrom(HashTwins[:8]))
 }
 
 // Hex renders bytes for JSON-serialisable cases.
